@@ -270,11 +270,13 @@ def main(argv):
             % (len(xcases), sum(len(c[2]) for c in xcases.values()), len(scases)))
 
     def report_monitors(cid, rep, mons, detail, what_prefix=""):
+        parts = dict(re.findall(r"\[(\w+)\] (.*?)(?= // \[|$)", detail))
         for k, (sig, text) in MON_TEXT.items():
             if mons.get(k) == "0":
-                if sig == "oversize-not-once" and "default new_delete_resource" in detail:
+                d = parts.get(k[4:], detail)
+                if sig == "oversize-not-once" and "default new_delete_resource" in d and "K" in rep.get("ops", []):
                     sig = "move-ctor-drops-upstream"
-                chk.violate(sig, "%s%s: %s" % (what_prefix, text, detail), rep)
+                chk.violate(sig, "%s%s: %s" % (what_prefix, text, d), rep)
 
     impl_out = {}
     if impl:
